@@ -45,6 +45,7 @@ from rs2lean_loops import K, Ctl, LoopCtx, LParser, is_ivar, paren, tokenize, tu
 from rs2lean_bfe import CTX, map_ast
 
 X = {
+    "field": False,      # P10: `Self` is an abstract finite field (opaque `D`), its operations are parameters
     "opaque": False,     # digests are opaque (`D`), hash_pair is the parameter `H`
     "plens": {},         # rust name of a translated function -> [array length (int) or None per parameter]
     "mp_struct_ok": False,
@@ -65,6 +66,12 @@ def make_lean_ty(base):
             return "Nat"
         if ty == "hfun":
             return "D → D → D"
+        # BEGIN P10
+        if ty == "ufun":
+            return "D → D"
+        if ty == "pfun":
+            return "D → Bool"
+        # END P10
         if isinstance(ty, tuple) and ty and ty[0] == "iter":
             return "List " + L.lean_ty_atom(ty[1])
         if isinstance(ty, tuple) and ty and ty[0] == "chunks":
@@ -136,6 +143,18 @@ class BT4Parser(B.BfeParser):
                     self.expect("]")
                     return ("vecrep", x, n)
             self.i = save
+        # BEGIN P10: `Vec::<T>::new()`
+        if k == "id" and v == "Vec" and self.peek(1)[1] == "::" and self.peek(2)[1] == "<":
+            self.next(); self.next(); self.next()
+            ty = self.parse_type()
+            self.expect(">")
+            self.expect("::")
+            if self.next() != ("id", "new"):
+                raise Unsupported("turbofish path other than Vec::<T>::new()")
+            self.expect("(")
+            self.expect(")")
+            return ("vecnew_t", ty)
+        # END P10
         if k == "op" and v == "(":
             save = self.i
             self.next()
@@ -304,6 +323,18 @@ def count_path(x, name):
     return 0
 
 
+# BEGIN P10
+def count_kind_p10(x, mname):
+    """number of method calls named `mname` in an AST"""
+    if isinstance(x, tuple):
+        n = 1 if (len(x) == 4 and x[0] == "mcall" and x[2] == mname) else 0
+        return n + sum(count_kind_p10(y, mname) for y in x)
+    if isinstance(x, list):
+        return sum(count_kind_p10(y, mname) for y in x)
+    return 0
+# END P10
+
+
 def is_tryinto_unwrap(e):
     return isinstance(e, tuple) and len(e) == 4 and e[0] == "mcall" and e[2] == "unwrap" and not e[3] \
         and e[1][0] == "mcall" and e[1][2] == "try_into" and not e[1][3]
@@ -339,7 +370,7 @@ class BT4Emitter(B.BfeEmitter):
         return B.BfeEmitter.tyname(self, ty)
 
     def param_type_ok(self, ty):
-        if ty in ("digest", "hfun"):
+        if ty in ("digest", "hfun", "ufun", "pfun"):      # P10: ufun, pfun
             return True
         if isinstance(ty, tuple) and ty[0] in ("array", "vec") and ty[1] == "digest":
             return True
@@ -444,6 +475,13 @@ class BT4Emitter(B.BfeEmitter):
             return f"(List.replicate {paren(c)} {paren(v)})", ("vec", vty), self.conj(vok, cok)
         if k == "range":
             raise Unsupported("range expression outside the supported idioms")
+        # BEGIN P10
+        if k == "vecnew_t":
+            ety = self.tyname(e[1])
+            if isinstance(exp, tuple) and exp[0] == "vec":
+                self.unify(exp[1], ety, "Vec::<T>::new()")
+            return "[]", ("vec", ety), None
+        # END P10
         if k == "path" and e[1] == ["PARALLELIZATION_CUTOFF"] and X["opaque"] and X.get("cutoff_static_ok") \
                 and "PARALLELIZATION_CUTOFF" not in env and "cutoff" in env:
             return env["cutoff"][0], "usize", None
@@ -471,8 +509,40 @@ class BT4Emitter(B.BfeEmitter):
                 return r
         return B.BfeEmitter.emit(self, e, env, exp)
 
+    # BEGIN P10: the abstract finite field (`X["field"]`): `Self` is the opaque type `D`, its operations are parameters
+    def emit_bin(self, e, env, exp):
+        _, op, l, r = e
+        if X.get("field") and op in ("+", "-", "*", "/", "==", "!="):
+            saved = self.dirty
+            a, aty, aok = self.emit(l, env, None)
+            self.dirty = saved
+            if self.resolve(aty) == "digest":
+                if op != "*" or "f_mul" not in env:
+                    raise Unsupported(f"operator {op} of the abstract field")
+                b, bty, bok = self.emit(r, env, "digest")
+                if self.resolve(bty) != "digest":
+                    raise Unsupported("`*` of a field element and something else")
+                return f"({env['f_mul'][0]} {paren(a)} {paren(b)})", "digest", self.conj(aok, bok)
+        return B.BfeEmitter.emit_bin(self, e, env, exp)
+
+    def emit_field_mcall_p10(self, e, env):
+        _, recv, name, args = e
+        if not (X.get("field") and name in ("is_zero", "inverse") and not args):
+            return None
+        a, aty, aok = self.emit(recv, env, "digest")
+        if self.resolve(aty) != "digest":
+            raise Unsupported(f"{name}() on something that is not a field element")
+        if name == "is_zero":
+            return f"({env['f_is_zero'][0]} {paren(a)})", "bool", aok
+        return f"({env['f_inverse'][0]} {paren(a)})", "digest", self.conj(aok, f"({env['f_inverse_ok'][0]} {paren(a)})")
+    # END P10
+
     def emit_call4(self, e, env, exp):
         path, args = e[1], e[2]
+        # BEGIN P10
+        if X.get("field") and path in (["Self", "zero"], ["Self", "one"]) and not args:
+            return env["f_" + path[1]][0], "digest", None
+        # END P10
         if path in (["iter", "once"], ["std", "iter", "once"], ["iter", "repeat"], ["std", "iter", "repeat"]) and len(args) == 1:
             self.check_no_partial(args[0])
             t, ty, ok = self.emit(args[0], env, None)
@@ -532,6 +602,13 @@ class BT4Emitter(B.BfeEmitter):
 
     def emit_mcall4(self, e, env, exp):
         _, recv, name, args = e
+        # BEGIN P10
+        r = self.emit_mcall_p10(e, env, exp)
+        if r is None:
+            r = self.emit_field_mcall_p10(e, env)
+        if r is not None:
+            return r
+        # END P10
         if name in ("unwrap", "try_into", "expect", "pop", "next_back", "fold", "for_each", "map", "flat_map",
                     "collect_into_vec", "into_par_iter", "collect"):
             return None
@@ -599,11 +676,120 @@ class BT4Emitter(B.BfeEmitter):
         return None
 
 
+    # BEGIN P10
+    def pure_closure_p10(self, clo, npar, what):
+        """a closure `|p1, .., pn| <expression>`: no block, no assignment, no nested closure; returns (patterns, body)"""
+        if not (clo[0] == "closure" and len(clo[1]) == npar):
+            raise Unsupported(f"{what}: closure arity")
+        body = clo[2]
+        if body[0] in ("block", "assignexpr"):
+            raise Unsupported(f"{what}: closure with a block / assignment body")
+        bad = {"n": 0}
+
+        def f(node):
+            if node and node[0] in ("closure", "assignexpr", "mutref", "block"):
+                bad["n"] += 1
+            if node and node[0] == "call":
+                sig = CTX["sigs"].get(node[1][-1])
+                if sig is None or sig.get("outs"):
+                    # unknown functions are refused when emitted; functions with `&mut` parameters are refused here
+                    if sig is not None:
+                        bad["n"] += 1
+            return node
+        map_ast(body, f)
+        if bad["n"]:
+            raise Unsupported(f"{what}: closure body outside the pure expression subset")
+        self.check_no_partial(body)
+        return clo[1], body
+
+    def emit_mcall_p10(self, e, env, exp):
+        """exactly three closure idioms (everything else falls through to the refusals of the BT4 module):
+        `<finite iterator>.fold(init, |acc, &x| <pure expr>)`                 = `List.foldl (fun acc x => ..) init l`
+        `<slice/Vec>.chunks(k)` / `<chunks>.take(n)`                           (slice::chunks; lazy and pure)
+        `<chunks or finite iterator>.map(|x| <pure expr>).collect()`           = `List.map`, every check of the body in `_ok`
+        A closure here is an expression without assignment, nested closure, block, `&mut` argument or call of a function
+        with `&mut` parameters / that may not terminate, so it only reads its environment."""
+        _, recv, name, args = e
+        if name == "fold" and len(args) == 2 and args[1][0] == "closure":
+            pats, body = self.pure_closure_p10(args[1], 2, "fold")
+            if not (pats[0][0] == "pid" and pats[1][0] == "pref" and pats[1][1][0] == "pid" and pats[0][1] != pats[1][1][1]):
+                raise Unsupported("fold: closure parameters other than `|acc, &x|`")
+            l, lty, lok = self.emit(recv, env, None)
+            lty = self.resolve(lty)
+            if not (isinstance(lty, tuple) and lty[0] == "iter"):
+                raise Unsupported(f"fold on {lty}")
+            self.check_no_partial(args[0])
+            i0, ity, iok = self.emit(args[0], env, exp)
+            env2 = dict(env)
+            accn, xn = pats[0][1], pats[1][1][1]
+            env2.pop(accn, None)
+            env2.pop(xn, None)
+            al = self.fresh(accn, env2)
+            env2[accn] = (al, ity)
+            xl = self.fresh(xn, env2)
+            env2[xn] = (xl, lty[1])
+            b, bty, bok = self.emit(body, env2, self.resolve(ity))
+            if bok is not None:
+                raise Unsupported("fold: closure body with a run-time check")
+            rty = self.unify(ity, bty, "fold")
+            return f"(List.foldl (fun {al} {xl} => {b}) {paren(i0)} {paren(l)})", rty, self.conj(lok, iok)
+        if name == "chunks" and len(args) == 1:
+            saved = self.dirty
+            try:
+                a, aty, aok = self.emit(recv, env, None)
+            except Unsupported:
+                self.dirty = saved
+                return None
+            aty = self.resolve(aty)
+            if isinstance(aty, tuple) and aty[0] in ("vec", "array"):
+                self.check_no_partial(args[0])
+                n, nty, nok = self.emit(args[0], env, "usize")
+                self.unify(nty, "usize", "chunks")
+                return f"(TF.RustIter.chunks {paren(n)} {paren(a)})", ("chunks", aty[1]), self.conj(aok, nok, f"({n} != 0)")
+            return None
+        if name == "take" and len(args) == 1 and recv[0] == "mcall" and recv[2] == "chunks":
+            a, aty, aok = self.emit(recv, env, None)
+            aty = self.resolve(aty)
+            if not (isinstance(aty, tuple) and aty[0] == "chunks"):
+                return None
+            self.check_no_partial(args[0])
+            n, nty, nok = self.emit(args[0], env, "usize")
+            self.unify(nty, "usize", "take")
+            return f"({paren(a)}.take {paren(n)})", aty, self.conj(aok, nok)
+        if name == "collect" and not args and recv[0] == "mcall" and recv[2] == "map" and len(recv[3]) == 1 \
+                and recv[3][0][0] == "closure":
+            pats, body = self.pure_closure_p10(recv[3][0], 1, "map")
+            if pats[0][0] != "pid":
+                raise Unsupported("map: closure parameter other than a plain identifier")
+            if not (isinstance(exp, tuple) and exp[0] == "vec"):
+                raise Unsupported("collect() with an unknown target type")
+            a, aty, aok = self.emit(recv[1], env, None)
+            aty = self.resolve(aty)
+            if isinstance(aty, tuple) and aty[0] == "chunks":
+                elty = ("vec", aty[1])
+            elif isinstance(aty, tuple) and aty[0] == "iter":
+                elty = aty[1]
+            else:
+                raise Unsupported(f"map on {aty}")
+            env2 = dict(env)
+            xn = pats[0][1]
+            env2.pop(xn, None)
+            xl = self.fresh(xn, env2)
+            env2[xn] = (xl, elty)
+            b, bty, bok = self.emit(body, env2, exp[1])
+            rty = ("vec", self.unify(exp[1], bty, "collect"))
+            ok = self.conj(aok, f"({paren(a)}.all (fun {xl} => {bok}))" if bok else None)
+            return f"({paren(a)}.map (fun {xl} => {b}))", rty, ok
+        return None
+    # END P10
+
+
 # --------------------------------------------------------------------------------------------------------
 # statements
 # --------------------------------------------------------------------------------------------------------
 
 OPAQUE_PARAMS = ("H", "d0", "hash0", "digest_default", "cutoff")
+FIELD_PARAMS = ("f_zero", "f_one", "f_mul", "f_is_zero", "f_inverse", "f_inverse_ok")      # P10
 STRICT_KINDS = ("cast", "field", "fieldn", "not", "neg", "mutref", "toarray")
 
 
@@ -769,8 +955,66 @@ class BT4Translator(B.BfeFnTranslator):
             out.append(st)
         return out
 
+    # BEGIN P10
+    def flatmap_node_p10(self, e):
+        """`(<literal>..<identifier>).flat_map(|_| self.<m>()).collect_vec()`: (lo, hi, m) or None"""
+        if not (isinstance(e, tuple) and e and e[0] == "mcall" and e[2] == "collect_vec" and not e[3]):
+            return None
+        fm = e[1]
+        if not (fm[0] == "mcall" and fm[2] == "flat_map" and len(fm[3]) == 1 and fm[1][0] == "range"):
+            return None
+        clo, rng = fm[3][0], fm[1]
+        if not (clo[0] == "closure" and clo[1] == [("pwild",)] and clo[2][0] == "mcall" and clo[2][1] == ("path", ["self"])
+                and not clo[2][3]):
+            raise Unsupported("flat_map with a closure other than `|_| self.<method>()`")
+        if not (rng[1][0] == "lit" and rng[2][0] == "path" and len(rng[2][1]) == 1):
+            raise Unsupported("flat_map over a range other than `<literal>..<variable>`")
+        return rng[1][1], rng[2][1][0], clo[2][2]
+
+    def desugar_flatmap_p10(self, blk):
+        """`S[(lo..hi).flat_map(|_| self.m()).collect_vec()]` where the node is the innermost receiver of the method chain
+        that is the whole expression of the `let` / tail / `return` statement S (so it is evaluated first):
+        `collect_vec` drives the lazy `flat_map` to the end at once, calling the closure for lo, lo+1, .. in order and
+        appending what each call returns.  Rewritten, on the AST, to the loop that this is:
+            let mut v = vec![]; for i in lo..hi { let t = self.m(); for x in t { v.push(x); } }  S[v]
+        (`i` is a fresh, unused name for the closure's `_`)"""
+        out = []
+        for st in blk:
+            if st[0] in ("let", "tail", "return") and count_kind_p10(st, "flat_map"):
+                idx = 3 if st[0] == "let" else 1
+                spine = [st[idx]]
+                while spine[-1] is not None and spine[-1][0] == "mcall" and self.flatmap_node_p10(spine[-1]) is None:
+                    spine.append(spine[-1][1])
+                hit = self.flatmap_node_p10(spine[-1]) if spine[-1] is not None else None
+                if hit is None or count_kind_p10(st, "flat_map") != 1:
+                    raise Unsupported("flat_map outside the supported idiom (head of the statement's method chain)")
+                lo, hi, m = hit
+                self.p10_counter = getattr(self, "p10_counter", 0) + 1
+                c = self.p10_counter
+                v, t, x, iv = f"fm_acc_{c}", f"fm_out_{c}", f"fm_x_{c}", f"fm_i_{c}"
+                used = {tv for tk, tv in tokenize(self.src) if tk == "id"}
+                if {v, t, x, iv} & used:
+                    raise Unsupported("identifier clash with a variable introduced for flat_map")
+                text = f"let mut {v} = vec![]; for {iv} in {lo}..{hi} {{ let {t} = self.{m}(); for {x} in {t} {{ {v}.push({x}); }} }}"
+                ps = self.PARSER(tokenize(text))
+                pre = ps.parse_stmts("")
+                if ps.peek()[0] != "eof":
+                    raise Unsupported("internal: flat_map desugaring")
+                e2 = ("path", [v])
+                for node in reversed(spine[:-1]):
+                    e2 = ("mcall", e2, node[2], node[3])
+                out += pre
+                out.append(st[:idx] + (e2,) + st[idx + 1:])
+            else:
+                out.append(st)
+        return out
+    # END P10
+
     def prepare(self, stmts):
         self.hoist_counter4 = 0
+        # BEGIN P10
+        stmts = map_blocks(stmts, self.desugar_flatmap_p10)
+        # END P10
         stmts = B.BfeFnTranslator.prepare(self, stmts)
 
         def glue(node):
@@ -1130,13 +1374,15 @@ class BT4Translator(B.BfeFnTranslator):
         names = B.BfeFnTranslator.free_in(self, parts, env)
         if X["opaque"]:
             names = names | set(OPAQUE_PARAMS)
+        if X.get("field"):      # P10
+            names = names | set(FIELD_PARAMS)
         return names
 
     def translate(self):
         if X["opaque"]:
             # the parameters added by this module keep their names: the Rust text must not use them
             for k, v in tokenize(self.src):
-                if k == "id" and v in OPAQUE_PARAMS:
+                if k == "id" and (v in OPAQUE_PARAMS or (X.get("field") and v in FIELD_PARAMS)):      # P10: FIELD_PARAMS
                     raise Unsupported(f"identifier {v} clashes with a parameter added by the translator")
         self.em.ret_hint = None
         if self.ret_ast is not None:
@@ -1185,7 +1431,7 @@ def translate_fn4(src, rust_name, lname, rel, consts, fns, pfns, fuel, after=Non
     params_text, ret_text, body = find_fn(src, rust_name, after)
     if X["opaque"]:
         for k, v in tokenize(params_text):
-            if k == "id" and v in OPAQUE_PARAMS:
+            if k == "id" and (v in OPAQUE_PARAMS or (X.get("field") and v in FIELD_PARAMS)):      # P10: FIELD_PARAMS
                 raise Unsupported(f"parameter {v} clashes with a parameter added by the translator")
     probe = BT4Emitter(consts, fns, pfns, rust_name)
     probe.self_ty_override = self_ty
@@ -1374,7 +1620,7 @@ def run_inner(status, changed, fns, read_src):
                  fuel="(right_lineage_count + 1)", pre=HD, free=True),
             dict(lname="mmr_calculate_new_peaks_from_leaf_mutation", rname="calculate_new_peaks_from_leaf_mutation",
                  rel=sb_rel, pre=HD, free=True),
-            dict(lname="mmr_bag_peaks", rname="bag_peaks", rel=sh_rel, pre=HD + [("hash0", "digest")], free=True, outside=True),
+            dict(lname="mmr_bag_peaks", rname="bag_peaks", rel=sh_rel, pre=HD + [("hash0", "digest")], free=True),      # P10: no longer outside the subset
         ]
         run_group4(status, changed, "MmrPeaksLoops", sb_rel + ", " + sh_rel, ["TF.Gen.MmrIndex", "TF.Model.RustIter"], pre,
                    mmr_specs, read_src, dict(ifns), {})
@@ -1386,6 +1632,29 @@ def run_inner(status, changed, fns, read_src):
         ]
         run_group4(status, changed, "MerkleLoops", mt_rel, ["TF.Gen.Consts", "TF.Model.RustIter"], pre, merkle_specs,
                    read_src, {}, {})
+        # BEGIN P10: the provided method `FiniteField::batch_inversion` over an ABSTRACT field: `Self` is the opaque type `D`,
+        # `Self::zero()`, `Self::one()`, `*` (and `*=`, checked below to be `*self = *self * rhs` in both implementations),
+        # `is_zero()`, `inverse()` (with its panic flag) are parameters
+        X["field"] = True
+        try:
+            tr_rel = "twenty-first/src/math/traits.rs"
+            xfe_rel = "twenty-first/src/math/x_field_element.rs"
+            pat = r"impl\s+MulAssign(?:<{T}>)?\s+for\s+{T}\s*\{{\s*(?:#\[inline\]\s*)?fn\s+mul_assign\(&mut\s+self,\s*rhs:\s*Self\)\s*\{{\s*\*self\s*=\s*\*self\s*\*\s*rhs\s*;\s*\}}\s*\}}"
+            mul_assign_ok = bool(re.search(pat.format(T="BFieldElement"), bfe)) and \
+                bool(re.search(pat.format(T="XFieldElement"), read_src(xfe_rel) or ""))
+            FP = [("f_zero", "digest"), ("f_one", "digest"), ("f_mul", "hfun"), ("f_is_zero", "pfun"), ("f_inverse", "ufun"),
+                  ("f_inverse_ok", "pfun"), ("d0", "digest")]
+            field_specs = [
+                dict(lname="ff_batch_inversion", rname="batch_inversion", rel=tr_rel, after=r"pub trait FiniteField", pre=FP,
+                     self_ty="digest", free=True),
+            ]
+            if not mul_assign_ok:
+                status["failed"]["fn ff_batch_inversion"] = "bt4: a MulAssign impl is not `*self = *self * rhs`"
+                field_specs = []
+            run_group4(status, changed, "FieldLoops", tr_rel, ["TF.Model.RustIter"], pre, field_specs, read_src, {}, {})
+        finally:
+            X["field"] = False
+        # END P10
     finally:
         X["opaque"] = False
         CTX["sigs"] = saved_sigs
